@@ -506,7 +506,11 @@ def resolve_name(obj, func, args, unknown=False):
 
 def forward_signatures(func, calls, args, kwargs, sig):
     if args or kwargs:
-        bap = sig.bind_partial(*args, **kwargs)
+        try:
+            bap = sig.bind_partial(*args, **kwargs)
+        except TypeError:
+            # the known arguments do not fit: plain retrieval reports that
+            raise UnknownForwards
     else:
         bap = EmptyBoundArguments()
     def rn(obj, unknown=True):
